@@ -35,6 +35,7 @@ class World:
         import redun.file as rf
         self.rf = rf
         self.root = os.path.realpath(tempfile.mkdtemp(prefix="verif-gJ-"))
+        self.ext = os.path.realpath(tempfile.mkdtemp(prefix="verif-gJ-ext-"))   # targets of symlinks that leave the tree
         w = self
         self._saved = (rf.LocalFileSystem._open, rf.LocalFileSystem.copy, rf.hash_struct, rf.hash_stream)
         orig_open, orig_copy, orig_hs, orig_hstream = self._saved
@@ -78,16 +79,24 @@ class World:
         rf = self.rf
         rf.LocalFileSystem._open, rf.LocalFileSystem.copy, rf.hash_struct, rf.hash_stream = self._saved
         shutil.rmtree(self.root, ignore_errors=True)
+        shutil.rmtree(self.ext, ignore_errors=True)
         return False
 
     def reset(self):
-        """Empty the temp root (between cases)."""
-        for name in os.listdir(self.root):
-            p = os.path.join(self.root, name)
-            if os.path.isdir(p):
-                shutil.rmtree(p)
-            else:
-                os.remove(p)
+        """Empty the temp root and the link-target area (between cases)."""
+        for top in (self.root, self.ext):
+            for name in os.listdir(top):
+                p = os.path.join(top, name)
+                if os.path.islink(p) or not os.path.isdir(p):
+                    os.remove(p)
+                else:
+                    shutil.rmtree(p)
+
+    def link(self, comps, target):
+        """symlink <root>/<comps> -> target (absolute path; may not exist yet)"""
+        p = self.abs(comps)
+        os.makedirs(os.path.dirname(p), exist_ok=True)
+        os.symlink(target, p)
 
     # ------------------------------------------------------------------ paths
     def abs(self, comps):
@@ -110,8 +119,11 @@ class World:
         os.utime(p, (t, t))
 
     def xremove(self, comps):
+        p = self.abs(comps)
+        if os.path.islink(p):
+            p = os.path.realpath(p)          # a symlink to a file: delete the file, keep the (now dangling) link
         try:
-            os.remove(self.abs(comps))
+            os.remove(p)
         except FileNotFoundError:
             pass
 
@@ -123,11 +135,16 @@ class World:
             return None
 
     def snapshot(self):
-        """{rel path: (bytes, int mtime)} of every regular file under the root."""
+        """{rel path: (bytes, mtime)} of what a recursive glob of the root enumerates as files: regular files, reached
+        also through symlinks to directories and symlinks to files (named by the path through the link), hidden
+        names (leading dot) skipped, dangling links skipped."""
         out = {}
-        for d, _, files in os.walk(self.root):
+        for d, dirs, files in os.walk(self.root, followlinks=True):
+            dirs[:] = [x for x in dirs if not x.startswith(".")]
             for f in files:
                 p = os.path.join(d, f)
+                if f.startswith(".") or not os.path.isfile(p):
+                    continue
                 st = os.stat(p)
                 with open(p, "rb") as fh:
                     out[self.rel(p)] = (fh.read(), st.st_mtime)
